@@ -17,7 +17,10 @@ def run(ctx):
     for (ln, payload) in rejects:
         e = json.loads(lines[ln - 1])
         for why in payload[0]:
-            if e['ev'] == 'Profile':
+            if e['ev'] == 'ProfileUse':
+                vlib.report(ctx, 'profile-use:%s:%s' % (e['name'], why), 'selecting by profile %s: %s (retrievable=%s allListed=%s accepted=%s faithful=%s)' % (
+                    e['name'], why, e['retrievable'], e['allListed'], e['accepted'], e['faithful']), dict(event=e))
+            elif e['ev'] == 'Profile':
                 vlib.report(ctx, 'profile:%s' % e['name'], 'profile %s names lints that do not exist: %s' % (e['name'], e['missing'][:5]), dict(event=e))
             else:
                 # re-execute: the driver is deterministic; a second process must show the same
@@ -25,7 +28,7 @@ def run(ctx):
                 vlib.report(ctx, key, '%s %r offered to %s: %s (listed=%s defined=%s accepted=%s)' % (
                     e['kind'], e['tok'], e['entry'], why, e['listed'], e['defined'], e['accepted']), dict(event=e))
     if s['profiles_lib'] == 0:
-        ctx.notes.append('no profile is registered in this build: the profile clause is checked but vacuous')
+        ctx.notes.append('no profile is registered in this build: the clause about registered profiles is vacuous; the profile mechanism is exercised with profiles made by the driver')
     cov = dict(evaluations=s['events'], distinct_nontrivial=s['classes'],
                rule='evaluation = one selector token offered to one entry point (library include/exclude names, SourceList.FromString, LintSource.FromString, '
                     'JSON round trip, Filter by source, CLI flags, profiles); non-trivial = distinct (kind, entry point, token class) triples',
